@@ -5,7 +5,12 @@
 //! re-runs in `exec`), huge shapes (16 384 .. 140 000 elements, an axis above 65 536), every axis length 1..300 in
 //! leading / inner / trailing position with every flat position, narrowing images `c + 2^8 / 2^16 / 2^32` of
 //! coordinates, positions, ranges and index lists, ranks 6..8.
+//! Part 3 (after the fourth round): coordinates / positions / index-list entries whose product with a stride wraps modulo
+//! 2^64 into the extent of the axis (`gen_wrap`), a soak of more than 65 536 distinct shapes on the one executor thread
+//! (`soak`), arrays of more than 2^20 elements (`iota:<shape>`, judged by the harness-native reference `oracle`, which the
+//! same run validates against the model on EVERY modelled case), the 12- / 3- / 32-byte element types.
 use arrharness::*;
+use std::sync::atomic::{AtomicUsize, Ordering as AtOrd};
 use std::any::{Any, TypeId};
 use std::cell::RefCell;
 use std::collections::HashMap;
@@ -94,7 +99,8 @@ fn gen(tier: &str, seed: u64, out: &mut dyn FnMut(String)) {
     let thorough = tier == "thorough";
     // corpus of past failures (seeded changes that an earlier generator missed) first
     for l in ["index_to_coord i3,8 8", "index_to_coord i2,3,16 16", "index_to_coord i2,8,3 24", "index_at i2,3 0,3", "at i2,3 0,3",
-              "index_at i2,0,3 0,0,0", "index_at i0 0", "at i2,3,4 0,1,0", "index_at i2,3,4 0,3,0"] { out(l.to_string()); }
+              "index_at i2,0,3 0,0,0", "index_at i0 0", "at i2,3,4 0,1,0", "index_at i2,3,4 0,3,0",
+              "index_at i2,4 4611686018427387904,1", "at i2,4 4611686018427387904,1", "op_index_coords i2,4 4611686018427387904,1", "index_at i2,4 0,1"] { out(l.to_string()); }
     let mut shapes_all = if thorough { shapes(1, 4, 1, 4) } else { shapes(1, 4, 1, 3) };
     shapes_all.extend(if thorough { shapes(5, 5, 1, 3) } else { shapes(5, 5, 1, 2) });
     // zero-length axes: the empty array and shapes containing 0
@@ -105,6 +111,8 @@ fn gen(tier: &str, seed: u64, out: &mut dyn FnMut(String)) {
     let n_rand = if thorough { 400 } else { 60 };
     for _ in 0..n_rand { let r = 1 + rng.below(5); shapes_all.push((0..r).map(|_| 1 + rng.below(6)).collect()); }
     for s in &shapes_all { emit_full_box(s, out); }
+    // ---- part 3 (class 14): more than 65 536 DISTINCT shapes on this thread; everything below runs after it
+    out(format!("soak i1 {} {seed}", if thorough { 140_000 } else { 70_000 }));
     // ---- sizes beyond the small scope
     for s in c02_big_shapes(thorough) { emit_big(&s, out); }
     // seeded random big shapes: rank 1..5, axis lengths 1..20 (thorough 1..40), at most 3000 (6000) elements
@@ -125,6 +133,12 @@ fn gen(tier: &str, seed: u64, out: &mut dyn FnMut(String)) {
     gen_narrow(thorough, out);
     gen_sweep(thorough, out);
     gen_huge(thorough, &mut rng, out);
+    // ---- robustness streams, part 3
+    gen_wrap(thorough, out);
+    gen_giant(thorough, &mut rng, out);
+    if thorough { gen_soak_lines(seed, out); out(format!("soak i1 70000 {}", seed + 1000)); }
+    // the last case reports (and demands) the validations of the native reference against the model
+    out("oracle_validations i1".to_string());
 }
 
 // ---------------------------------------------------------------- robustness streams, part 2
@@ -400,6 +414,203 @@ fn gen_huge(thorough: bool, rng: &mut Rng, out: &mut dyn FnMut(String)) {
     }
 }
 
+// ---------------------------------------------------------------- robustness streams, part 3
+
+const TWO64: u128 = 1u128 << 64;
+
+fn strides_of(s: &[usize]) -> Vec<usize> {
+    let mut st = vec![1usize; s.len()];
+    for k in (0..s.len().saturating_sub(1)).rev() { st[k] = st[k + 1].saturating_mul(s[k + 1]); }
+    st
+}
+
+/// out-of-range values `c` whose product with `stride` wraps modulo 2^64 into (or next to) the extent `[0, stride * dim)` of
+/// the axis: `ceil(j * 2^64 / stride) + small` (for a power-of-two stride `2^e` exactly the aliases `small + j * 2^(64-e)`),
+/// the floors next to them, and the values around 2^62, 2^63 and 2^64 (`-1`, `-dim`, `-dim + small`: a signed comparison or
+/// `c + dim` wraps)
+fn wrap_images(stride: usize, dim: usize) -> Vec<usize> {
+    let (s, d) = (stride as u128, dim as u128);
+    let mut v: Vec<u128> = vec![];
+    if stride > 1 {
+        let mut js: Vec<u128> = vec![1, 2, 3, s / 2, s - 1];
+        js.retain(|&j| j >= 1 && j < s); js.sort(); js.dedup();
+        for j in js {
+            let (up, dn) = ((j * TWO64 + s - 1) / s, j * TWO64 / s);
+            for small in [0, 1, d.saturating_sub(1), d] { v.push(up + small); }
+            v.push(dn); v.push(dn.saturating_sub(1));
+        }
+    }
+    for small in [0, 1, d.saturating_sub(1)] { v.push((1u128 << 63) + small); v.push((1u128 << 62) + small); v.push(TWO64 - d.max(1) + small); }
+    v.push(TWO64 - 1); v.push((1u128 << 63) - 1);
+    v.retain(|&c| c < TWO64 && c >= d); v.sort(); v.dedup();
+    v.into_iter().map(|c| c as usize).collect()
+}
+
+/// class (15): huge coordinates / positions / index-list entries / range ends.  Every failing call is directly followed by a
+/// valid one on the same array.
+fn gen_wrap(thorough: bool, out: &mut dyn FnMut(String)) {
+    let mut sh = shapes(2, 3, 1, 3);
+    sh.extend(vec![vec![5], vec![2, 4], vec![4, 2], vec![3, 5], vec![7, 2], vec![2, 7], vec![2, 3, 4], vec![4, 3, 2], vec![5, 3, 2], vec![2, 2, 2, 2], vec![2, 3, 5, 7], vec![1, 4], vec![4, 1],
+                  vec![2, 1, 4], vec![2, 1, 2, 1, 2], vec![3, 256], vec![256, 3], vec![300, 2], vec![2, 300], vec![16, 16, 16], vec![2, 70000], vec![65537, 2], vec![2, 65536], vec![3, 4096, 16],
+                  vec![6, 10], vec![10, 6], vec![2, 12, 5], vec![2, 2, 2, 2, 2, 2, 2, 2], vec![0, 4], vec![4, 0], vec![2, 0, 3], vec![3, 3, 3, 3, 3]]);
+    if thorough { sh.extend(shapes(4, 4, 1, 3)); sh.extend(vec![vec![2, 3, 2, 3, 2, 3], vec![7, 11, 13], vec![1 << 10, 1 << 10]]); }
+    sh.sort(); sh.dedup();
+    for s in &sh {
+        let a = tag(s);
+        let n: usize = s.iter().product();
+        let st = strides_of(s);
+        let r = s.len();
+        // base vectors: all zeros, all last, the middle
+        let mut bases: Vec<Vec<usize>> = vec![vec![0; r], s.iter().map(|d| d.saturating_sub(1)).collect(), s.iter().map(|d| d / 2).collect()];
+        bases.dedup();
+        let valid = show_list(&bases[bases.len() - 1].iter().zip(s).map(|(&c, &d)| c.min(d.saturating_sub(1))).collect::<Vec<_>>());
+        for k in 0..r {
+            for img in wrap_images(st[k], s[k]) {
+                for (bi, b) in bases.iter().enumerate() {
+                    let mut c = b.clone(); c[k] = img;
+                    let t = show_list(&c);
+                    out(format!("index_at {a} {t}"));
+                    if bi == 0 || n <= 64 { out(format!("at {a} {t}")); out(format!("op_index_coords {a} {t}")); }
+                    out(format!("index_at {a} {valid}"));
+                }
+            }
+        }
+        // the SUM wraps although no single product does: c[k] * stride = 2^64 - rest, a later axis supplies rest + t
+        for k in 0..r.saturating_sub(1) {
+            if st[k] <= 1 { continue; }
+            let ck = ((TWO64 - 1) / st[k] as u128) as usize;
+            let rest = (TWO64 - ck as u128 * st[k] as u128) as usize;
+            for j in k + 1..r {
+                if st[j] == 0 || rest % st[j] != 0 { continue; }
+                for t in [0usize, 1, s[j].saturating_sub(1)] {
+                    let mut c = vec![0; r]; c[k] = ck; c[j] = rest / st[j] + t;
+                    let t = show_list(&c);
+                    out(format!("index_at {a} {t}")); out(format!("at {a} {t}")); out(format!("op_index_coords {a} {t}")); out(format!("at {a} {valid}"));
+                }
+            }
+        }
+        // every component huge at once
+        for f in [1usize << 63, 1 << 62, usize::MAX, 1 << 32] {
+            let c: Vec<usize> = s.iter().enumerate().map(|(k, _)| if st[k] > 1 { (TWO64 / st[k] as u128).min(TWO64 - 1) as usize } else { f }).collect();
+            out(format!("index_at {a} {}", show_list(&c))); out(format!("op_index_coords {a} {}", show_list(&c)));
+            out(format!("index_at {a} {}", show_list(&vec![f; r]))); out(format!("at {a} {}", show_list(&vec![f; r]))); out(format!("op_index_coords {a} {valid}"));
+        }
+        // flat positions
+        let mut pos: Vec<u128> = vec![TWO64 - 1, (1 << 63) - 1];
+        for i in [0u128, 1, (n as u128).saturating_sub(1)] { for b in [1u128 << 63, 1 << 62, 1 << 32, 1 << 53, TWO64 - (n as u128).max(1)] { pos.push(b + i); } }
+        if n > 1 { for j in [1u128, 2, n as u128 - 1] { pos.push((j * TWO64 + n as u128 - 1) / n as u128); pos.push((j * TWO64 + n as u128 - 1) / n as u128 + 1); } }
+        for &d in s.iter() { if d > 1 { pos.push(TWO64 / d as u128); pos.push(TWO64 / d as u128 + 1); } }
+        pos.retain(|&p| p < TWO64); pos.sort(); pos.dedup();
+        for p in pos {
+            out(format!("index_to_coord {a} {p}")); out(format!("index_to_coord {a} {}", n.saturating_sub(1)));
+            out(format!("op_index {a} {p}")); out(format!("op_index {a} {}", n.saturating_sub(1)));
+        }
+        // index lists (stride of the first axis = the row size) and ranges
+        if n <= 5000 {
+            let d0 = s[0];
+            let row = if d0 == 0 { 0 } else { n / d0 };
+            let mut imgs = wrap_images(row.max(1), d0);
+            if r == 1 { imgs.extend(wrap_images(2, n)); imgs.sort(); imgs.dedup(); }
+            for img in imgs {
+                out(format!("indices_at {a} {img}"));
+                out(format!("indices_at {a} 0,{img}"));
+                out(format!("indices_at {a} {img},{}", d0.saturating_sub(1)));
+                out(format!("indices_at {a} {}", d0.saturating_sub(1)));
+            }
+            let m = usize::MAX;
+            for (x, y) in [(0, m), (m, m), (m, 0), (1 << 63, (1 << 63) + 1), (1, m), (m - 1, m), (0, 1 << 63), (0, (1 << 32) + 1), ((1 << 32) + 1, (1 << 32) + 2), (m - n, m), (0, (m - n).saturating_add(1))] {
+                out(format!("slice {a} {x} {y}")); out(format!("slice {a} 0 1"));
+            }
+        }
+    }
+}
+
+/// the shapes of the soak: distinct, non-empty, at most 60 elements, ranks 1..12 (every tuple over 1..=5), shuffled by the seed
+fn soak_shapes(count: usize, seed: u64) -> Vec<Vec<usize>> {
+    fn go(cur: &mut Vec<usize>, prod: usize, rank: usize, out: &mut Vec<Vec<usize>>, cap: usize) {
+        if out.len() >= cap { return; }
+        if cur.len() == rank { out.push(cur.clone()); return; }
+        for d in 1..=5usize { if prod * d <= 60 { cur.push(d); go(cur, prod * d, rank, out, cap); cur.pop(); } }
+    }
+    let mut all = vec![];
+    for rank in 1..=12 { go(&mut vec![], 1, rank, &mut all, 4 * count + 1000); }
+    assert!(all.len() >= count, "harness: not enough soak shapes ({} < {count})", all.len());
+    let mut rng = Rng::new(seed ^ 0x50A4);
+    for i in (1..all.len()).rev() { let j = rng.below(i + 1); all.swap(i, j); }
+    all.truncate(count);
+    all
+}
+
+/// thorough: the same kind of soak as MODELLED case lines (two per shape; `exec` re-runs the previous case after each)
+fn gen_soak_lines(seed: u64, out: &mut dyn FnMut(String)) {
+    for s in soak_shapes(70_000, seed + 77) {
+        let a = tag(&s);
+        let n: usize = s.iter().product();
+        out(format!("index_at {a} {}", show_list(&s.iter().map(|d| d - 1).collect::<Vec<_>>())));
+        out(format!("index_to_coord {a} {}", n - 1));
+    }
+}
+
+/// class (11): more than 2^20 elements.  `iota:<shape>` is built by the harness; the driver answers `native` and the case is
+/// judged by the native reference `oracle`.  Positions: the ends, around 2^20 and every stride multiple, multiples of 2^16, random.
+fn gen_giant(thorough: bool, rng: &mut Rng, out: &mut dyn FnMut(String)) {
+    let mut sh = giant_shapes();
+    sh.extend(vec![vec![33, 32, 31, 33], vec![1024, 1025], vec![64, 128, 129], vec![3, 5, 7, 11, 13, 73]]);
+    if !thorough { sh.retain(|s| ![vec![2_097_153], vec![2, 3, 174_763], vec![600, 2, 1000], vec![64, 128, 129]].contains(s)); }
+    for s in &sh {
+        let a = format!("iota:{}", show_list(s));
+        let n: usize = s.iter().product();
+        let mut pos: Vec<usize> = (0..4).chain(n - 4..n + 2).chain((1 << 20) - 2..(1 << 20) + 3).collect();
+        for st in strides_of(s) { if st > 1 { for k in [1, 2, n / st / 2, n / st - 1] { if k >= 1 { pos.push(k * st - 1); pos.push(k * st); pos.push(k * st + 1); } } } }
+        for _ in 0..(if thorough { 40 } else { 6 }) { let k = 1 + rng.below(n >> 16); pos.push((k << 16) - 1); pos.push(k << 16); }
+        for _ in 0..(if thorough { 400 } else { 24 }) { pos.push(rng.below(n)); }
+        pos.retain(|&p| p < n + 2); pos.sort(); pos.dedup();
+        for &i in &pos {
+            out(format!("index_to_coord {a} {i}"));
+            out(format!("op_index {a} {i}"));
+            if i < n {
+                let mut c = vec![0; s.len()]; let mut r = i;
+                for k in (0..s.len()).rev() { c[k] = r % s[k]; r /= s[k]; }
+                let t = show_list(&c);
+                out(format!("index_at {a} {t}")); out(format!("at {a} {t}")); out(format!("op_index_coords {a} {t}"));
+                if i % 5 == 0 { let k = i % s.len(); let mut b = c.clone(); b[k] = s[k]; out(format!("index_at {a} {}", show_list(&b))); out(format!("at {a} {t}")); }
+            }
+        }
+        out(format!("index_at {a} {}", show_list(&vec![0; s.len() + 1])));
+        out(format!("index_at {a} {}", show_list(&s.iter().map(|d| d + 1000).collect::<Vec<_>>())));
+        let d0 = s[0];
+        let mut ranges = vec![(0, 1), (1, 2), (d0 - 1, d0), (1, 3), (3, 1), (n - 1, n), (n, n + 1), (d0, d0 + 1), ((1 << 20) - 1, (1 << 20) + 1)];
+        if s.len() == 1 { ranges.extend(vec![(5, n - 3), ((1 << 20) - 3, n), (0, n)]); } else { ranges.extend(vec![(0, d0), (2, d0 + 2), (0, d0 - 1)]); }
+        for (st, en) in ranges { out(format!("slice {a} {st} {en}")); }
+        // the crate's `indices_at` splits the array into shape[0] pieces first: only short first axes
+        if s.len() == 1 || d0 <= 400 {
+            for l in [vec![0], vec![d0 - 1], vec![d0 - 1, 0], vec![d0], vec![1, 1], vec![0, d0 - 1, 1]] { out(format!("indices_at {a} {}", show_list(&l))); }
+            if s.len() == 1 { out(format!("indices_at {a} {}", show_list(&[(1 << 20) - 1, 1 << 20, (1 << 20) + 1, n - 1, 0]))); }
+        }
+    }
+    if thorough {
+        // above 2^24 elements (a length or position through `as f32`): the u8 image only
+        for s in [vec![16_777_219usize], vec![4097, 4099], vec![3, 5_592_407]] {
+            let a = format!("iota8:{}", show_list(&s));
+            let n: usize = s.iter().product();
+            let mut pos: Vec<usize> = (0..3).chain(n - 3..n + 2).chain((1 << 24) - 2..(1 << 24) + 4).collect();
+            for st in strides_of(&s) { if st > 1 { for k in [1, n / st - 1] { pos.push(k * st - 1); pos.push(k * st); pos.push(k * st + 1); } } }
+            for _ in 0..60 { pos.push((1 << 24) + rng.below(n - (1 << 24))); pos.push(rng.below(n)); }
+            pos.retain(|&p| p < n + 2); pos.sort(); pos.dedup();
+            for &i in &pos {
+                out(format!("index_to_coord {a} {i}")); out(format!("op_index {a} {i}"));
+                if i < n {
+                    let mut c = vec![0; s.len()]; let mut r = i;
+                    for k in (0..s.len()).rev() { c[k] = r % s[k]; r /= s[k]; }
+                    let t = show_list(&c);
+                    out(format!("index_at {a} {t}")); out(format!("at {a} {t}")); out(format!("op_index_coords {a} {t}"));
+                }
+            }
+            out(format!("slice {a} {} {}", (1 << 24) - 1, (1 << 24) + 2));
+        }
+    }
+}
+
 /// extension: `slice(range)` and `indices_at(indices)`; answers are whole arrays (`shape:elems`)
 fn gen_ext(tier: &str, rng: &mut Rng, out: &mut dyn FnMut(String)) {
     let thorough = tier == "thorough";
@@ -510,6 +721,10 @@ impl Img for usize { const NAME: &'static str = "usize"; fn img(t: i64) -> Self 
 impl Img for f64 { const NAME: &'static str = "f64"; fn img(t: i64) -> Self { tag_f64z(t) } fn same(a: &Self, b: &Self) -> bool { a.to_bits() == b.to_bits() } }
 impl Img for f32 { const NAME: &'static str = "f32"; fn img(t: i64) -> Self { if t == 0 { -0.0 } else { (t % 16_000_000) as f32 } } fn same(a: &Self, b: &Self) -> bool { a.to_bits() == b.to_bits() } }
 impl Img for String { const NAME: &'static str = "String"; fn img(t: i64) -> Self { format!("s{t}") } }
+// part 3 (class 12): element sizes that are not powers of two (12 and 3 bytes) and a 32-byte non-`Copy` type
+impl Img for T3 { const NAME: &'static str = "Tuple3<i32,i32,i32> (12 bytes)"; fn img(t: i64) -> Self { tag_t3(t) } }
+impl Img for T3b { const NAME: &'static str = "Tuple3<u8,u8,u8> (3 bytes)"; fn img(t: i64) -> Self { tag_t3b(t) } }
+impl Img for TW { const NAME: &'static str = "Tuple2<String,i32> (32 bytes)"; fn img(t: i64) -> Self { tag_tw(t) } }
 
 #[derive(Clone, Debug)]
 enum Out<V> { Ok(V), Err(&'static str), Panic }
@@ -576,26 +791,123 @@ fn agree<T: Img>(b: &Out<Ans<i64>>, v: &Out<Ans<T>>) -> bool {
         _ => false,
     }
 }
-fn brief<T: Img>(v: &Out<Ans<T>>) -> String { truncate(&format!("{v:?}"), 200) }
+/// never formats a long element list
+fn brief<T: Img>(v: &Out<Ans<T>>) -> String {
+    match v {
+        Out::Ok(Ans::Arr { shape, elems, consistent }) if elems.len() > 64 =>
+            format!("Ok(Arr {{ shape: {shape:?}, {} elements starting {:?}, consistent: {consistent} }})", elems.len(), &elems[..8]),
+        _ => truncate(&format!("{v:?}"), 200),
+    }
+}
+/// where two answers first differ (arrays: the first differing flat position, found in place)
+fn first_diff<T: Img>(b: &Out<Ans<i64>>, v: &Out<Ans<T>>) -> String {
+    if let (Out::Ok(Ans::Arr { shape: s1, elems: e1, .. }), Out::Ok(Ans::Arr { shape: s2, elems: e2, consistent })) = (b, v) {
+        if s1 != s2 { return format!("shape {s2:?} instead of {s1:?}"); }
+        if !consistent { return "the returned array is inconsistent (C01 monitor)".to_string(); }
+        if e1.len() != e2.len() { return format!("{} elements instead of {}", e2.len(), e1.len()); }
+        if let Some(p) = (0..e1.len()).find(|&p| !T::same(&T::img(e1[p]), &e2[p])) { return format!("first differing flat position {p}: {:?} instead of the image of tag {}", e2[p], e1[p]); }
+    }
+    format!("{} instead of {}", brief(v), brief(b))
+}
+fn short_out(o: &Out<Ans<i64>>) -> String {
+    match o {
+        Out::Ok(Ans::Arr { shape, elems, consistent }) if elems.len() > 64 => format!("{} {}:[{} elements, first {}, last {}]", if *consistent { "ok" } else { "inconsistent" }, show_list(shape), elems.len(), elems[0], elems[elems.len() - 1]),
+        _ => show_out(o),
+    }
+}
 
-/// the case lines of one array follow each other: the arrays built for the last array argument are kept, per element type
-struct Cache { key: String, shape: Vec<usize>, tags: Vec<i64>, arrs: HashMap<TypeId, Rc<dyn Any>> }
-thread_local! { static CACHE: RefCell<Cache> = RefCell::new(Cache { key: String::new(), shape: vec![], tags: vec![], arrs: HashMap::new() }); }
+// ---------------------------------------------------------------- the native reference (part 3)
+
+static VALIDATED: AtomicUsize = AtomicUsize::new(0);
+static NATIVE_JUDGED: AtomicUsize = AtomicUsize::new(0);
+static SOAKED: AtomicUsize = AtomicUsize::new(0);
+
+/// row-major position by the defining sum  pos = SUM_k c[k] * PROD_{j>k} shape[j]  (128-bit, no fold, no running stride);
+/// `None` = the vector is refused (wrong length or a component outside its axis)
+fn ref_pos(shape: &[usize], c: &[usize]) -> Option<usize> {
+    if c.len() != shape.len() { return None; }
+    let mut pos: u128 = 0;
+    for k in 0..shape.len() {
+        if c[k] >= shape[k] { return None; }
+        pos += c[k] as u128 * shape[k + 1..].iter().map(|&d| d as u128).product::<u128>();
+    }
+    Some(pos as usize)
+}
+/// coordinates by the defining quotient  c[k] = (idx / PROD_{j>k} shape[j]) mod shape[k]
+fn ref_coord(shape: &[usize], idx: usize) -> Option<Vec<usize>> {
+    let n: u128 = shape.iter().map(|&d| d as u128).product();
+    if idx as u128 >= n { return None; }
+    Some((0..shape.len()).map(|k| ((idx as u128 / shape[k + 1..].iter().map(|&d| d as u128).product::<u128>()) % shape[k] as u128) as usize).collect())
+}
+/// the reference answer of a call on the tag array of `shape` whose flat element `p` is `p + off`; `None` = no opinion (rank 0).
+/// Validated against the Lean model on every modelled case of the run (`VALIDATED`), it alone judges the `iota:` and `soak` cases.
+fn oracle(shape: &[usize], off: i64, c: &Call) -> Option<Out<Ans<i64>>> {
+    if shape.is_empty() { return None; }
+    let n: usize = shape.iter().product();
+    let el = |p: usize| p as i64 + off;
+    let refused = Out::Err("ParameterError");
+    Some(match c {
+        Call::IndexAt(v) => ref_pos(shape, v).map_or(refused, |p| Out::Ok(Ans::Pos(p))),
+        Call::ToCoord(i) => ref_coord(shape, *i).map_or(refused, |c| Out::Ok(Ans::Coord(c))),
+        Call::At(v) => ref_pos(shape, v).map_or(refused, |p| Out::Ok(Ans::Elem(el(p)))),
+        Call::OpIdx(i) => if *i < n { Out::Ok(Ans::Elem(el(*i))) } else { Out::Panic },
+        Call::OpCoords(v) => ref_pos(shape, v).map_or(Out::Panic, |p| Out::Ok(Ans::Elem(el(p)))),
+        Call::Slice(st, en) => {
+            let arr = |sh: Vec<usize>, from: usize, len: usize| Out::Ok(Ans::Arr { shape: sh, elems: (from..from + len).map(el).collect(), consistent: true });
+            if !(st <= en && *en <= n) { Out::Err("OutOfBounds") }
+            else if shape.len() == 1 { arr(vec![en - st], *st, en - st) }
+            else if en - st >= shape[0] { arr(shape.to_vec(), 0, n) }
+            else {
+                // a window shorter than the first axis: a CONTIGUOUS block of w rows (w = 1, 0: one row, first axis dropped)
+                let w = en - st;
+                let sh: Vec<usize> = if w > 1 { std::iter::once(w).chain(shape[1..].iter().copied()).collect() } else { shape[1..].to_vec() };
+                let items: usize = sh.iter().product();
+                let from = sh[0] as u128 * *st as u128;
+                if items == 0 || from + items as u128 > n as u128 { Out::Err("OutOfBounds") } else { arr(sh, from as usize, items) }
+            }
+        }
+        Call::IndicesAt(l) => {
+            let row = if shape.len() == 1 { 1 } else { shape[1..].iter().product::<usize>() };
+            if l.iter().any(|&i| i >= shape[0]) { Out::Err("OutOfBounds") }
+            else {
+                let sh: Vec<usize> = std::iter::once(l.len()).chain(shape[1..].iter().copied()).collect();
+                Out::Ok(Ans::Arr { shape: sh, elems: l.iter().flat_map(|&i| (i * row..(i + 1) * row).map(el)).collect(), consistent: true })
+            }
+        }
+    })
+}
+
+/// the case lines of one array follow each other: the arrays built for the last array argument are kept, per element type.
+/// `off`: `Some(o)` for the tag arrays `i<shape>[+o]` / `iota:<shape>` / `iota8:<shape>` (flat element p is p + o; their tags
+/// are produced on the fly, never stored), `None` for a written-out array
+struct Cache { key: String, shape: Vec<usize>, tags: Vec<i64>, off: Option<i64>, arrs: HashMap<TypeId, Rc<dyn Any>> }
+thread_local! { static CACHE: RefCell<Cache> = RefCell::new(Cache { key: String::new(), shape: vec![], tags: vec![], off: None, arrs: HashMap::new() }); }
+fn parse_key(key: &str) -> (Vec<usize>, Vec<i64>, Option<i64>) {
+    if let Some(sh) = key.strip_prefix("iota:").or_else(|| key.strip_prefix("iota8:")) { return (parse_usize_list(sh), vec![], Some(0)); }
+    if let Some(body) = key.strip_prefix('i') {
+        let (sh, off) = match body.split_once('+') { Some((a, b)) => (a, b.parse::<i64>().unwrap()), None => (body, 0) };
+        return (parse_usize_list(sh), vec![], Some(off));
+    }
+    let (s, e) = parse_arr_raw(key);
+    (s, e, None)
+}
 fn cached<T: Img + 'static>(key: &str) -> Rc<Array<T>> {
     CACHE.with(|c| {
         let mut c = c.borrow_mut();
         if c.key != key || (c.key.is_empty() && c.arrs.is_empty()) {
-            let (s, e) = parse_arr_raw(key);
-            *c = Cache { key: key.to_string(), shape: s, tags: e, arrs: HashMap::new() };
+            let (s, e, off) = parse_key(key);
+            *c = Cache { key: key.to_string(), shape: s, tags: e, off, arrs: HashMap::new() };
         }
         if !c.arrs.contains_key(&TypeId::of::<T>()) {
             // built WITHOUT going through any operation under test other than `Array::new`
-            let a: Array<T> = Array::new(c.tags.iter().map(|&t| T::img(t)).collect(), c.shape.clone()).expect("harness: array literal");
+            let elems: Vec<T> = match c.off { Some(o) => { let n: usize = c.shape.iter().product(); (0..n as i64).map(|p| T::img(p + o)).collect() }, None => c.tags.iter().map(|&t| T::img(t)).collect() };
+            let a: Array<T> = Array::new(elems, c.shape.clone()).expect("harness: array literal");
             c.arrs.insert(TypeId::of::<T>(), Rc::new(a));
         }
         c.arrs[&TypeId::of::<T>()].clone().downcast::<Array<T>>().expect("harness: cache type")
     })
 }
+fn cached_shape() -> (Vec<usize>, Option<i64>) { CACHE.with(|c| { let c = c.borrow(); (c.shape.clone(), c.off) }) }
 
 /// one element type: plain and chained receiver against the canonical answer; `Some(text)` = a divergence
 fn variant<T: Img + 'static>(key: &str, c: &Call, base: &Out<Ans<i64>>, plain: bool, chained: bool) -> Option<String> {
@@ -620,9 +932,101 @@ fn variant<T: Img + 'static>(key: &str, c: &Call, base: &Out<Ans<i64>>, plain: b
 struct Prev { line: String, arr: Rc<Array<i64>>, call: Call, ans: Out<Ans<i64>> }
 thread_local! { static PREV: RefCell<Option<Prev>> = const { RefCell::new(None) }; }
 
-fn exec(op: &str, args: &[&str], expected: &str) -> Option<Verdict> {
-    let key = args[0];
+/// the calls of the soak on one shape: in-range vectors (last / middle / first), their positions, one refused call of each kind
+fn soak_calls(s: &[usize]) -> Vec<Call> {
+    let n: usize = s.iter().product();
+    let last: Vec<usize> = s.iter().map(|d| d - 1).collect();
+    let mid: Vec<usize> = s.iter().map(|d| d / 2).collect();
+    vec![Call::IndexAt(last.clone()), Call::ToCoord(n - 1), Call::At(mid.clone()), Call::OpCoords(last), Call::IndexAt(mid), Call::ToCoord(n / 2), Call::OpIdx(n / 2),
+         Call::IndexAt(s.to_vec()), Call::ToCoord(n), Call::IndexAt(vec![0; s.len()])]
+}
+/// class (14): `count` distinct small shapes through every coordinate / position operation on THIS thread; after each new shape
+/// the shape before it is asked again (A-B-A), at the end a sample of all of them.  Judged by the native reference.
+fn exec_soak(count: usize, seed: u64) -> Verdict {
+    let shapes = soak_shapes(count, seed);
+    let probe = |a: &Array<i64>, s: &[usize]| -> Option<String> {
+        for (j, c) in soak_calls(s).iter().enumerate() {
+            let o = oracle(s, 0, c)?;
+            let v = call(a, c, false)?;
+            if !agree(&o, &v) { return Some(format!("call {j} {} on shape {s:?}: {}", call_text(c), first_diff(&o, &v))); }
+            if j < 2 { if let Some(v) = call(a, c, true) { if !agree(&o, &v) { return Some(format!("call {j} {} on Ok(array) of shape {s:?}: {}", call_text(c), first_diff(&o, &v))); } } }
+        }
+        None
+    };
+    let fail = |what: String| Verdict::Mismatch { observed: format!("SOAK-DIVERGENCE {what}"), detail: "native reference (validated against the model on every modelled case of this run); more than 65 536 distinct shapes on one thread".into() };
+    let mut prev: Option<(usize, Array<i64>)> = None;
+    for (j, s) in shapes.iter().enumerate() {
+        let a = iota_tags(s);
+        if let Some(d) = probe(&a, s) { return fail(format!("after {j} distinct shapes of the soak: {d}")); }
+        if let Some((pj, pa)) = &prev { if let Some(d) = probe(pa, &shapes[*pj]) { return fail(format!("after {} distinct shapes of the soak, the shape visited BEFORE the newest one: {d}", j + 1)); } }
+        prev = Some((j, a));
+        SOAKED.fetch_add(1, AtOrd::Relaxed);
+    }
+    for j in (0..shapes.len()).step_by(53).chain(shapes.len().saturating_sub(300)..shapes.len()) {
+        if let Some(d) = probe(&iota_tags(&shapes[j]), &shapes[j]) { return fail(format!("second visit after the whole soak of {count} shapes: {d}")); }
+    }
+    NATIVE_JUDGED.fetch_add(1, AtOrd::Relaxed);
+    Verdict::Match(format!("ok soak of {count} distinct shapes"))
+}
+fn call_text(c: &Call) -> String {
+    match c {
+        Call::IndexAt(v) => format!("index_at {}", show_list(v)), Call::ToCoord(i) => format!("index_to_coord {i}"), Call::At(v) => format!("at {}", show_list(v)),
+        Call::OpIdx(i) => format!("op_index {i}"), Call::OpCoords(v) => format!("op_index_coords {}", show_list(v)), Call::Slice(s, e) => format!("slice {s} {e}"), Call::IndicesAt(l) => format!("indices_at {}", show_list(l)),
+    }
+}
+
+/// a case on an array of more than 2^20 elements (`iota:<shape>`; `iota8:` = the u8 image only): judged by the native reference,
+/// compared in place; then the usual repeat / receiver / element-type variants (no String-carrying type at this size)
+fn exec_native(op: &str, args: &[&str], key: &str, c: &Call) -> Option<Verdict> {
+    let shape = parse_key(key).0;
+    let o = oracle(&shape, 0, c)?;
+    NATIVE_JUDGED.fetch_add(1, AtOrd::Relaxed);
+    let detail = "native reference (validated against the model on every modelled case of this run)".to_string();
+    if key.starts_with("iota8:") {
+        let a = cached::<u8>(key);
+        let v = call(&*a, c, false)?;
+        if !agree(&o, &v) { return Some(Verdict::Mismatch { observed: format!("u8 image: {}", first_diff(&o, &v)), detail }); }
+        return Some(Verdict::Match(short_out(&o)));
+    }
     let a = cached::<i64>(key);
+    let base = call(&*a, c, false)?;
+    if !agree(&o, &base) { return Some(Verdict::Mismatch { observed: format!("{}: {}", truncate(&short_out(&base), 200), first_diff(&o, &base)), detail: format!("{detail} says `{}`", truncate(&short_out(&o), 300)) }); }
+    let aba = aba_step(op, args, &a, c, &base);
+    // the chained receiver clones the whole array twice: every case whose answer is small, on the i64 array only
+    let light = !matches!(&base, Out::Ok(Ans::Arr { elems, .. }) if elems.len() > 4096);
+    let d = aba.or_else(|| variant::<i64>(key, c, &base, true, light && !matches!(c, Call::IndicesAt(_))))
+        .or_else(|| variant::<u8>(key, c, &base, true, false))
+        .or_else(|| variant::<T3b>(key, c, &base, true, false))
+        .or_else(|| if light { variant::<f64>(key, c, &base, true, false) } else { None })
+        .or_else(|| if light { variant::<T3>(key, c, &base, true, false) } else { None });
+    Some(match d { Some(d) => Verdict::Mismatch { observed: format!("{d}; plain Array<i64> call: {}", truncate(&short_out(&base), 200)), detail }, None => Verdict::Match(short_out(&base)) })
+}
+
+/// A-B-A: re-run the previous case right after the first call of this one; then this case becomes the previous one
+fn aba_step(op: &str, args: &[&str], a: &Rc<Array<i64>>, c: &Call, base: &Out<Ans<i64>>) -> Option<String> {
+    let aba = PREV.with(|p| {
+        let p = p.borrow();
+        let p = p.as_ref()?;
+        let again = call(&*p.arr, &p.call, false)?;
+        if agree(&p.ans, &again) { None } else { Some(format!("ABA-DIVERGENCE the previous case `{}` answered {} before this call and {} after it", p.line, truncate(&short_out(&p.ans), 120), truncate(&short_out(&again), 120))) }
+    });
+    PREV.with(|p| *p.borrow_mut() = Some(Prev { line: format!("{op} {}", args.join(" ")), arr: a.clone(), call: c.clone(), ans: base.clone() }));
+    aba
+}
+
+fn exec(op: &str, args: &[&str], expected: &str) -> Option<Verdict> {
+    if op == "oracle_validations" {
+        if expected != "native" { return None; }
+        let (v, j, k) = (VALIDATED.load(AtOrd::Relaxed), NATIVE_JUDGED.load(AtOrd::Relaxed), SOAKED.load(AtOrd::Relaxed));
+        let text = format!("ok native-reference-validated-against-model={v};judged-by-native-reference={j};soaked-shapes={k}");
+        if std::env::var_os("C02_STATS").is_some() { eprintln!("{text}"); }
+        return Some(if v < 100_000 || j == 0 || k <= 65_536 { Verdict::Mismatch { observed: text, detail: "the native reference was not validated against the model / the soak did not run in this run".into() } } else { Verdict::Match(text) });
+    }
+    if op == "soak" {
+        if expected != "native" { return None; }
+        return Some(exec_soak(args[1].parse().ok()?, args[2].parse().ok()?));
+    }
+    let key = args[0];
     let c = match op {
         "slice" => Call::Slice(args[1].parse().ok()?, args[2].parse().ok()?),
         "indices_at" => Call::IndicesAt(parse_usize_list(args[1])),
@@ -633,36 +1037,48 @@ fn exec(op: &str, args: &[&str], expected: &str) -> Option<Verdict> {
         "op_index_coords" => Call::OpCoords(parse_usize_list(args[1])),
         _ => return None,
     };
+    if key.starts_with("iota") {
+        if expected != "native" { return None; }
+        return exec_native(op, args, key, &c);
+    }
+    let a = cached::<i64>(key);
     // canonical answer: plain receiver, i64 tags
     let base = call(&*a, &c, false)?;
     let mut observed = show_out(&base);
     // A-B-A: re-run the previous case right after the first call of this one
-    let aba = PREV.with(|p| {
-        let p = p.borrow();
-        let p = p.as_ref()?;
-        let again = call(&*p.arr, &p.call, false)?;
-        if agree(&p.ans, &again) { None } else { Some(format!("ABA-DIVERGENCE the previous case `{}` answered {} before this call and {} after it", p.line, truncate(&show_out(&p.ans), 120), truncate(&show_out(&again), 120))) }
-    });
-    PREV.with(|p| *p.borrow_mut() = Some(Prev { line: format!("{op} {}", args.join(" ")), arr: a.clone(), call: c.clone(), ans: base.clone() }));
+    let aba = aba_step(op, args, &a, &c, &base);
+    // part 3: the native reference must give the answer of the model wherever the crate does (then it is counted as validated on
+    // this case); it judges the `iota:` / `soak` cases alone
+    let (shape, off) = cached_shape();
+    let oracle_div = match off.and_then(|off| oracle(&shape, off, &c)) {
+        Some(o) if observed == expected || (class_of(&observed) == "err" && class_of(expected) == "err") =>
+            if agree(&o, &base) { VALIDATED.fetch_add(1, AtOrd::Relaxed); None } else { Some(format!("ORACLE-DIVERGENCE the harness-native reference says {} ({})", brief(&o), first_diff(&o, &base))) },
+        _ => None,
+    };
     // robustness streams: the same call a second time, the call on Ok(array), and the element-type sweep.
-    // Arrays of up to 300 elements: every type on both receivers; larger ones: i64 / u8 on both, i8 / bool / f64 plain.
+    // Arrays of up to 300 elements: every type on both receivers; larger ones: i64 / u8 on both, i8 / bool / f64 / 12- and 3-byte tuples plain.
     let small = a.len().unwrap() <= 300;
-    let d = aba.or_else(|| variant::<i64>(key, &c, &base, true, true))
+    let d = aba.or(oracle_div).or_else(|| variant::<i64>(key, &c, &base, true, true))
         .or_else(|| variant::<u8>(key, &c, &base, true, true))
         .or_else(|| variant::<f64>(key, &c, &base, true, small))
         .or_else(|| variant::<i8>(key, &c, &base, true, small))
         .or_else(|| variant::<bool>(key, &c, &base, true, small))
+        .or_else(|| variant::<T3>(key, &c, &base, true, false))
+        .or_else(|| variant::<T3b>(key, &c, &base, true, false))
         .or_else(|| if small { variant::<u16>(key, &c, &base, true, true) } else { None })
         .or_else(|| if small { variant::<i32>(key, &c, &base, true, true) } else { None })
         .or_else(|| if small { variant::<f32>(key, &c, &base, true, true) } else { None })
         .or_else(|| if small { variant::<usize>(key, &c, &base, true, true) } else { None })
-        .or_else(|| if small { variant::<String>(key, &c, &base, true, true) } else { None });
+        .or_else(|| if small { variant::<String>(key, &c, &base, true, true) } else { None })
+        .or_else(|| if small { variant::<TW>(key, &c, &base, true, true) } else { None });
     if let Some(d) = d { observed = format!("{d}; plain Array<i64> call: {}", truncate(&observed, 300)); }
     Some(compare_default(observed, expected))
 }
 
 /// non-trivial: array has at least two axes longer than one (so row-major order matters)
-fn nontrivial(_op: &str, args: &[&str]) -> bool {
+fn nontrivial(op: &str, args: &[&str]) -> bool {
+    if op == "soak" || op == "oracle_validations" { return false; }
+    if args[0].starts_with("iota") { return parse_key(args[0]).0.iter().filter(|&&d| d > 1).count() >= 2; }
     let s = args[0].strip_prefix('i').map_or_else(|| parse_arr_raw(args[0]).0, |b| parse_usize_list(b.split('+').next().unwrap()));
     s.iter().filter(|&&d| d > 1).count() >= 2
 }
